@@ -540,6 +540,14 @@ class Program:
                 except Exception as e:
                     raise Unfoldable(str(e))
             raise Unfoldable("call")
+        if isinstance(expr, ast.Attribute) and isinstance(expr.value, ast.Name) and expr.value.id in ("self", "cls") and func is not None:
+            g = func
+            while g is not None and g.cls is None:
+                g = g.parent
+            if g is not None:
+                c, v = g.cls.find_attr(expr.attr)
+                if v is not None:
+                    return self.fold(c.module, v, None, depth + 1)
         if isinstance(expr, (ast.Name, ast.Attribute)):
             r = self.resolve_expr_static(module, func, expr)
             if r and r[0] == "modvar":
